@@ -152,6 +152,11 @@ func (r *floatSliceReducer) Aggregate(p *ReducerEndpoint, param *ReducerParams) 
 		var bufValues []float64
 		bufNil := bufCount == 0 || r.ringBuf.times[bufCount-1] < rangeStart
 		if isNil && bufNil {
+			// the first window of this record is empty (its rows lie after the last step), the steps
+			// between the previous record and this one are still owed from the buffer.
+			if param.step > 0 && i == firstIndex && bufCount > 0 {
+				r.populateByPrevious(outRecord, outOrdinal, param)
+			}
 			continue
 		}
 		var count int
@@ -295,7 +300,20 @@ func (r *floatIncAggReducer) Aggregate(p *ReducerEndpoint, param *ReducerParams)
 		start, end = int(param.intervalIndex[2*i]), int(param.intervalIndex[2*i+1])
 		t, v, isNil := r.fr(times, values, start, end)
 		bufNil := bufCount == 0 || r.ringBuf.times[bufCount-1] < rangeStart || (i == firstIndex && !r.prevPoint.isNil)
+		if isNil && !bufNil {
+			// the buffer may hold nothing but rows after this window (rows after the last step)
+			r.ringBuf.updateIndex(rangeStart, rangeEnd)
+			bufNil = r.ringBuf.s == r.ringBuf.e
+		}
 		if isNil && bufNil {
+			// the first window of this record is empty (its rows lie after the last step): the window
+			// held back from the previous record is complete, or the steps between the previous record
+			// and this one are still owed from the buffer.
+			if i == firstIndex && !r.prevPoint.isNil {
+				r.doFirstWindow(outRecord, outOrdinal, param, rangeEnd, numStep == 1)
+			} else if param.step > 0 && i == firstIndex && bufCount > 0 {
+				r.populateByPrevious(outRecord, outOrdinal, param)
+			}
 			continue
 		}
 		var count int
@@ -489,6 +507,12 @@ func (r *floatRateReducer) Aggregate(p *ReducerEndpoint, param *ReducerParams) {
 		ft, lt, fv, lv, isNil := r.fr(times, values, start, end)
 		bufNil := bufCount == 0 || r.ringBuf.times[bufCount-1] < rangeStart || (i == firstIndex && !r.prevPoints[0].isNil && !r.prevPoints[1].isNil)
 		if isNil && bufNil {
+			// see floatIncAggReducer.Aggregate
+			if i == firstIndex && !r.prevPoints[0].isNil && !r.prevPoints[1].isNil {
+				r.doFirstWindow(outRecord, outOrdinal, param, rangeEnd, numStep == 1)
+			} else if param.step > 0 && i == firstIndex && bufCount > 0 {
+				r.populateByPrevious(outRecord, outOrdinal, param)
+			}
 			continue
 		}
 		var count int
